@@ -118,6 +118,11 @@ Theorem C04_check_is_unconditional : check_loops_conditions = 0%nat.
 Proof. exact check_is_unconditional. Qed.
 Print Assumptions C04_check_is_unconditional.
 
+(* enable() stores the re-parsed copy of the port's own expression text with no suspension point after reading it *)
+Theorem C04_enable_reparse_is_atomic : enable_reparse_awaits = 0%nat.
+Proof. exact enable_reparse_is_atomic. Qed.
+Print Assumptions C04_enable_reparse_is_atomic.
+
 (* histories over assignments, additions, removals AND save / removal keeping the persisted data / (re)creation + load /
    restart: each of the latter is a sequence of the former on the registry, so the registry stays acyclic *)
 Theorem C04_load_path_is_base_ops : forall st h, exists l, fst (happly st h) = fold_left apply l (fst st).
